@@ -18,5 +18,25 @@ let handle line =
     let l = z_of_hex l and n = z_of_hex n in
     hex_of_z (getCheckPoint l n) ^ " " ^ b2s (isCheckPoint l n) ^ " " ^ hex_of_z (getStorePoint l n)
   | ["isChainSynced"; t; now; blk] -> b2s (isChainSynced (z_of_hex t) (z_of_hex now) (z_of_hex blk))
+  | ["staker.periodend"; p; s; c] -> b2s (validation_IsPeriodEnd (z_of_hex p) (z_of_hex s) (z_of_hex c))
+  | ["staker"; cd; st; p; cp; s; ex; off; lk; pu; q; cdv; w; wt; dstake; dlast; dfirst; cur] ->
+    (* fields of validation.Validation / delegation.Delegation in declaration order; "nil" = nil pointer *)
+    let zo x = if x = "nil" then None else Some (z_of_hex x) in
+    let oz = function Some x -> hex_of_z x | None -> "none" in
+    let ob = function Some b -> b2s b | None -> "none" in
+    let cd = z_of_hex cd and st = z_of_hex st and p = z_of_hex p and cp = z_of_hex cp and s = z_of_hex s and ex = zo ex and off = zo off
+    and lk = z_of_hex lk and pu = z_of_hex pu and q = z_of_hex q and cdv = z_of_hex cdv and w = z_of_hex w and wt = z_of_hex wt
+    and dstake = z_of_hex dstake and dlast = zo dlast and dfirst = z_of_hex dfirst and cur = z_of_hex cur in
+    String.concat " " [
+      b2s (validation_IsOnline off);
+      oz (validation_NextPeriodTVL lk pu q);
+      oz (validation_CurrentIteration p cp st s cur);
+      oz (validation_CompletedIterations p cp st s cur);
+      b2s (validation_CooldownEnded cd ex cur);
+      hex_of_z (validation_CalculateWithdrawableVET cd ex q cdv w cur);
+      hex_of_z (validation_multiplier lk wt);
+      ob (delegation_Started dfirst p cp st s cur);
+      ob (delegation_Ended dlast dfirst p cp st s cur);
+      ob (delegation_IsLocked dstake dlast dfirst p cp st s cur) ]
   | _ -> failwith "bad line"
 let () = iter_lines handle
